@@ -286,7 +286,10 @@ class Gen:
         h = h or self.pick()
         seeded = self.r.random() < 0.6 if seeded is None else seeded
         d = self.H[h]["d"]
-        self.steps.append(backward(h, tensor(d, [self.r.choice([1, 2, 3, 5, -1, F(1, 2)]) for _ in range(prod(d))]) if seeded else None))
+        st = backward(h, tensor(d, [self.r.choice([1, 2, 3, 5, -1, F(1, 2)]) for _ in range(prod(d))]) if seeded else None)
+        if self.r.random() < 0.12:
+            st["hold"] = self.pick()        # the caller still holds a borrow of this handle's gradient slot
+        self.steps.append(st)
         self.npass += 1
 
     def control_flow(self):
@@ -978,13 +981,19 @@ def self_operand_cases(tier, seed):
             ("reshape_twice", mixed, [op("reshape", [1], 8, d=[n]), op("reshape", [8], 9, d=[1, n]), op("reshape", [9], 10, d=d)]),
             ("sum_reshape_back", mixed, [op("sum", [1], 9, k=len(d)), op("add", [9, 1], 10)]),
             ("two_consumers_two_passes", mixed, [op("mul", [1, 1], 9), op("neg", [9], 10), op("scale", [9], 11, c=sc(3))]),
+            # an array against a reshaped view of itself (they share the value buffer) under broadcasting
+            ("mul_view_col", mixed, [op("reshape", [1], 8, d=[n, 1]), op("reshape", [1], 9, d=[n]), op("mul", [9, 8], 10)]),
+            ("mul_view_row", mixed, [op("reshape", [1], 8, d=[1, n]), op("reshape", [1], 9, d=[n, 1]), op("mul", [8, 9], 10)]),
+            ("add_view_col", mixed, [op("reshape", [1], 8, d=[n, 1]), op("reshape", [1], 9, d=[n]), op("add", [8, 9], 10)]),
+            ("div_view_col", pw, [op("reshape", [1], 8, d=[n, 1]), op("reshape", [1], 9, d=[n]), op("div", [9, 8], 10)]),
         ]
         if len(d) == 2:
             progs.append(("matmul_self_t", mixed, [op("matmul", [1, 1], 10, ta=False, tb=True)]))
             progs.append(("matmul_self_t2", mixed, [op("matmul", [1, 1], 10, ta=True, tb=False)]))
         for name, vals, ops in progs:
             steps = [RESET, leaf(1, d, vals, trk=True)] + ops
-            od = {"matmul_self_t": [d[0], d[0]], "matmul_self_t2": [d[-1], d[-1]]}.get(name, d)
+            od = {"matmul_self_t": [d[0], d[0]], "matmul_self_t2": [d[-1], d[-1]], "mul_view_col": [n, n], "mul_view_row": [n, n],
+                  "add_view_col": [n, n], "div_view_col": [n, n]}.get(name, d)
             steps.append(backward(10, seed_tensor(od, k0=2)))
             if name == "two_consumers_two_passes":
                 steps.append(backward(11, seed_tensor(d, k0=5)))
